@@ -782,6 +782,14 @@ class World(object):
             self.publish_raw(body, call.get("queue", self.shared_queue), call.get("message_id"))
             if call.get("arn"):
                 self.started.append(call["arn"])
+        elif op == "crash_restart":
+            # a scripted crash of an instance followed at once by its restart (the explorer places it anywhere its guards allow)
+            inst = self.instances[call.get("instance", 1) - 1]
+            self.broker.log("crash", instance=inst.idx, site=None)
+            inst.crash()
+            self.broker.log("restart", instance=inst.idx, site=None)
+            inst.start()
+            self._apic = None
         elif op == "call":
             call["fn"](self)
         elif op == "api":
@@ -804,7 +812,22 @@ class World(object):
                     tok = base64.b64encode(forged.encode()).decode()
                 elif call.get("mangle") == "notbase64":
                     tok = "%%%not-base64%%%"
+                elif call.get("mangle") in ("nosuffix", "nocolon", "binary", "suffix-only"):
+                    import base64
+                    raw = base64.b64decode(tok).decode()
+                    cid, rt = raw.split(":")
+                    text = {"nosuffix": (cid[: -len(".waitForTaskToken")] + ":" + rt).encode(), "nocolon": cid.encode(), "binary": b"\xff\xfe\x80" + raw.encode(),
+                            "suffix-only": b".waitForTaskToken"}[call["mangle"]]
+                    tok = base64.b64encode(text).decode()
+                elif call.get("mangle") == "empty":
+                    tok = ""
+                elif call.get("mangle") == "int":
+                    tok = 5
+                elif call.get("mangle") == "list":
+                    tok = [tok]
                 params["taskToken"] = tok
+                if call.get("mangle") == "missing":
+                    del params["taskToken"]
             st, js, text = self._apic.call(call["action"], params)
             self.api_log.append({"step": self.step_no, "action": call["action"], "status": st, "type": (js or {}).get("__type") if isinstance(js, dict) else None,
                                  "mangle": call.get("mangle"), "tag": call.get("tag"), "params": params, "body": js if call.get("keep_body") else None})
